@@ -764,6 +764,18 @@ class Calls(SpecRT, Strings, Loops, AnyVals, AbsSeqs):
             return ex.ok(STuple(r) if isinstance(c, STuple) else st.new_list(r), st)
         if isinstance(c, SAbs):
             return self.abs_slice(c, lo, hi, st, fr)
+        if isinstance(c, SStr):
+            # a slice of a text: computed for literals; otherwise some text the encoding says nothing about (over-approximation, A-str)
+            if c.lit is not None:
+                def cv2(x):
+                    if x is None:
+                        return None
+                    t = z3.simplify(x.t)
+                    if not z3.is_int_value(t):
+                        raise Unsupported('symbolic slice bound')
+                    return t.as_long()
+                return ex.ok(SStr(lit=c.lit[cv2(lo):cv2(hi)]), st)
+            return ex.ok(SStr(t=fresh_int('slice')), st)
         raise Unsupported('slice of %r' % (c,))
 
     def contains(self, coll, x, st, fr):
